@@ -157,7 +157,8 @@ def run(tier):
 
     # ---------------------------------------------------------------- (M) model checking, three ways
     asis = ["MC_Queries_quick_asis.cfg"] + ([] if quick else ["MC_Queries_thorough_asis.cfg"])
-    rep = ["MC_Queries_quick_repaired.cfg"] + ([] if quick else ["MC_Queries_thorough_repaired.cfg"])
+    # *_iterative: the alternative repair of the First recursion (explicit work list instead of a depth limit)
+    rep = ["MC_Queries_quick_repaired.cfg"] + ([] if quick else ["MC_Queries_thorough_repaired.cfg", "MC_Queries_quick_iterative.cfg"])
     jobs = ([("asis", c) for c in asis] + [("rep", c) for c in rep] + [("cex", "MC_Queries_quick_cex.cfg")]
             + [("dcex", "MC_Queries_depth_cex.cfg")])
     wk = 4 if quick else 8
@@ -170,7 +171,7 @@ def run(tier):
             return tlc("MC_Queries.tla", cfg, workers=wk, timeout=3000, xmx="4g" if quick else "8g")
         return tlc("MC_Queries.tla", cfg, workers=2 if kind == "cex" else 1, allow_violation=True, timeout=600)
 
-    with ThreadPoolExecutor(max_workers=4 if quick else 6) as ex:
+    with ThreadPoolExecutor(max_workers=4 if quick else 7) as ex:
         results = list(ex.map(mc, jobs))
     cases = []
     states = transitions = 0
@@ -277,6 +278,7 @@ def run(tier):
     keep = set([i for i in passing_mc if docs[i]["src"] != "mc:chain"][: (300 if quick else 3000)])
     executed = 0
     drift = 0
+    drift_examples = []
     seen_classes = collections.Counter()
     for i, (rec, o) in enumerate(zip(allrecs, outs)):
         if not o["ran"]:
@@ -286,10 +288,12 @@ def run(tier):
         chk.case(key if nontrivial(rec["doc"], o["res"]) else None)
         if i < nmc:
             for p in docs[i]["preds"]:
-                if p["pc"] in ("ok", "err"):
-                    drift += mc_drift(p, o["res"])
-                elif not o["obs"]:
-                    drift += 1          # the model predicts a failure lopdf does not show
+                dd = mc_drift(p, o["res"]) if p["pc"] in ("ok", "err") else (0 if o["obs"] else 1)   # 1: predicted failure not shown
+                drift += dd
+                if dd and len(drift_examples) < 5:
+                    drift_examples.append({"scenario": p["sc"], "walker": p["w"], "arg": p["arg"], "model": p["pc"], "model_result": p["res"][:8],
+                                           "objects": len(rec["doc"]["objs"]),
+                                           "lopdf": {k: (v if not isinstance(v, list) else v[max(0, p["arg"] - 1): p["arg"]]) for k, v in o["res"].items()}})
         if i >= nmc or o["obs"] or i in keep:
             judged.append(as_doc_rec(rec["doc"], o["obs"], True, o["res"]))
             jsrc.append(i)
@@ -366,7 +370,7 @@ def run(tier):
     chk.extra.update({
         "trace_states": s1 + s2, "documents_enumerated_by_tlc": nmc, "documents_random": len(rrecs),
         "documents_executed": executed, "skipped_predicted_hang_or_overflow": nskip + nskip_r,
-        "records_judged_by_tlc": len(judged) + nf, "model_drift": drift,
+        "records_judged_by_tlc": len(judged) + nf, "model_drift": drift, "model_drift_examples": drift_examples,
         "failing_calls_by_signature": dict(sorted(seen_classes.items())),
         "queries_per_document": "7 document-level + 14 per object id (ids 1..n and one dangling id)",
         "worker_limits": {"timeout_ms": timeout_ms, "address_space_mb": 1024},
